@@ -37,6 +37,7 @@ def run(ctx):
     modes = ["real" if k % 3 == 1 else "mem" for k in range(len(sets))]
     lines = [s.create_line(m) for s, m in zip(sets, modes)]
     impl, mod = c04.run_both(ctx, vh, model, lines)
+    vlines = []
     for s, mode, line, i, m in zip(sets, modes, lines, impl, mod):
         pi = L.parse_result(i)
         dist["writer_sets"] += 1
@@ -58,12 +59,21 @@ def run(ctx):
             if msg:
                 bad = "%s: %s" % (p.rsplit("/", 1)[1], msg)
                 break
+        # ... and by the specification-side validator of the Coq development (Model/Par1Spec.v, extracted), for which
+        # C10_writer_conforms proves that the writer MODEL passes for all inputs
+        vl = "c10 valid %d %d %s %d %s" % (s.nvol, len(names), " ".join("%s %s" % (L.hx(P1.to_go(n)), L.hx(d)) for n, d in zip(names, datas)),
+                                          len(want), " ".join(L.hx(pi["changed"][p]) for p, _ in sorted(want.items(), key=lambda kv: kv[1])))
+        vlines.append((vl, replay, s))
         if bad:
             report("a file written by PAR1 Create does not conform to PAR 1.0: %s" % bad, replay)
         elif L.canon(i, mode) != L.canon(m, mode):
             report("PAR1 Create output conforms but differs from the model's bytes", replay, True)
         if len(ctx.samples) < 3:
             ctx.sample({"files": {n: len(d) for n, d in s.files}, "volumes": s.nvol, "written": {p.rsplit("/", 1)[1]: len(b) for p, b in pi["changed"].items()}})
+    for (vl, replay, s), v in zip(vlines, ctx.run_lines(model, [x[0] for x in vlines])):
+        dist["writer_sets_judged_by_coq_validator"] = dist.get("writer_sets_judged_by_coq_validator", 0) + 1
+        if v != "valid":
+            report("the files PAR1 Create wrote are not a valid PAR 1.0 set for these inputs as judged by the extracted specification-side validator valid_par1_set (%s)" % v[:80], dict(replay, validator_line=vl[:200]))
     # ---------------- reader direction: sets by the independent writer ----------------
     cases = []
     for k in range(10 if not thorough else 40):
